@@ -692,7 +692,7 @@ def run_dist(case, ctx, teneva):
         # would be stale).  Done on a private copy so that the rest of the
         # case still sees the original tensor.
         if d >= 2 and all(s_ == 'ok' for s_ in status):
-            Yh = [G.copy() for G in Ypos]
+            Yh = [np.asarray(G, dtype=float).copy() for G in Ypos]
             k_ed = int(rng.integers(1, d))
             pat = 1. + 0.5 * (np.arange(Yh[k_ed].size).reshape(
                 Yh[k_ed].shape) % 2)
